@@ -158,7 +158,7 @@ def run(ctx):
             cl = cs["v1"].split(":", 1)[-1][:40]
             d["classes"][cl] = d["classes"].get(cl, 0) + 1
         rep = {"id": cs["id"], "mutation": cs["mut"], "module_line": cs["line"], "module_hex": cs.get("hex", ""),
-               "impl": {k: cs[k] for k in ("v0", "v1", "v1m", "fn", "msg")}, "model": mo}
+               "impl": {k: cs.get(k) for k in ("v0", "v1", "v1m", "fn", "msg", "artmem")}, "model": mo}
         # panics are always violations
         if any("PANIC" in str(cs[k]) for k in ("v0", "v1", "v1m")) or any("PANIC" in f for f in cs["fn"]):
             viol(rep, "panic in parse/validate/compile: %s" % cs["id"])
@@ -207,6 +207,12 @@ def run(ctx):
             elif iok and fi.split(":")[1] != fm.split(":")[1]:
                 mism["maxheight"] += 1
                 viol(dict(rep, function=i), "max_reachable_height differs on function %d of %s (%s vs %s)" % (i, cs["id"], fi, fm))
+        # the memory bound handed to the interpreter (Module::compile) vs artifact_memory of the model
+        if acc and parts["v1"] == "ok" and cs.get("artmem", "-") != parts.get("mem"):
+            mism["artifact_memory"] = mism.get("artifact_memory", 0) + 1
+            viol(dict(rep, artifact_memory_impl=cs.get("artmem"), theorem="artifact_memory_bounded"),
+                 "compiled artifact's memory (init:max) is %s, the model's artifact_memory says %s (max_size must be min(declared max, MAX_NUM_PAGES)) on %s"
+                 % (cs.get("artmem"), parts.get("mem"), cs["id"]))
         if acc and parts["v1"] == "ok" and early:
             kf_hits += 1
             if KF_TRAILING in known_ids:
